@@ -571,7 +571,21 @@ class KnownToFail(Contract):
 
 
 CONTRACTS = _mk() + [CustomParameters(), KnownToFail()]
-EXTRA = [head_override_columns]
+def overrides_do_not_outlive_the_run(repo, tier, seed):
+    """'Applied exactly once': an override written into a table that is cached or kept at module / class level would
+    stay in effect for later runs that do not give it - C14's effect-scan obligations (persistent writes, memoising
+    decorators), re-run under this property."""
+    from contracts import C14
+    out = []
+    for fn in (C14.persistent_writes, C14.files_written_are_never_read):
+        for o in fn(repo, tier, seed):
+            o = dict(o)
+            o["name"] = o["name"].replace("C14/inventory/", "C13/overrides/no_state_outlives_the_run/")
+            out.append(o)
+    return out
+
+
+EXTRA = [head_override_columns, overrides_do_not_outlive_the_run]
 TRUSTED = [
     "option strings are literal (the documented configuration space); the country row's numbers are symbolic (numpy float64 semantic: x/0 is nan)",
     "documented meaning of each value (MEANING) is taken from scenarios/README.md and the setters' docstrings / descriptions",
